@@ -292,18 +292,28 @@ def r4(R):
                 return st | {'miss-' + pr}
             return st - {'miss-' + pr}
         if node.kind == 'test' and lab in ('T', 'F'):
-            t = node.ast
-            inner, pol = strip_not(t)
-            if isinstance(inner, ast.Compare) and len(inner.ops) == 1 and \
-                    dotted(inner.comparators[0]) == ('self', '_issued_oids'):
-                notin = isinstance(inner.ops[0], ast.NotIn)
-                isin = isinstance(inner.ops[0], ast.In)
-                if notin or isin:
-                    fresh = (lab == 'T') == (notin == pol)
-                    st = st - {'unlocked-since-check'}
-                    if fresh and 'locked' not in st:
-                        st = st | {'unlocked-since-check'}
-                    return (st | {'fresh'}) if fresh else (st - {'fresh'})
+            from ..flow import implied_atoms
+            verdict = None
+            mentions = False
+            for inner, truth in implied_atoms(node.ast, lab):
+                for x in ast.walk(inner):
+                    if isinstance(x, ast.Compare) and len(x.ops) == 1 and \
+                            dotted(x.comparators[0]) == ('self',
+                                                         '_issued_oids'):
+                        mentions = True
+                if isinstance(inner, ast.Compare) and len(inner.ops) == 1 \
+                        and dotted(inner.comparators[0]) == (
+                            'self', '_issued_oids') and isinstance(
+                                inner.ops[0], (ast.In, ast.NotIn)):
+                    verdict = isinstance(inner.ops[0], ast.NotIn) == truth
+            if mentions:
+                # (a conjunction that failed, a disjunction that held: the
+                # id is not known to be unissued)
+                fresh = verdict is True
+                st = st - {'unlocked-since-check'}
+                if fresh and 'locked' not in st:
+                    st = st | {'unlocked-since-check'}
+                return (st | {'fresh'}) if fresh else (st - {'fresh'})
         if lab != 'e':
             for op in F.ops(node):
                 if op.kind == 'call' and path_is(
@@ -426,3 +436,54 @@ def r5(R):
                             'from the storage\'s new_oid(): it can collide '
                             'with an existing or later allocated id')
     R.require(n >= 4, 'only %d _p_oid assignments found' % n)
+
+
+# ------------------------------------------------------------------ C20.R6
+@rule('C20.R6', 'a demo storage\'s new_oid looks at every set of ids its own '
+      'store methods record an id in: an id the transaction in progress '
+      'stores a (copied) record under is taken although no layer has the '
+      'record yet', min_instances=1)
+def r6(R):
+    from ..twopc import DS
+    ds = R.prog.cls(DS)
+    recorded = {}
+    for meth in ('store', 'storeBlob', 'restore', 'restoreBlob',
+                 'deleteObject'):
+        r = R.prog.find_method(ds, meth)
+        if r is None:
+            continue
+        f = r[0]
+        if f.cls is None or f.cls.name != 'DemoStorage':
+            continue
+        oid = [p for p in f.params if p != 'self'][0]
+        for c in walk_local(f.node):
+            if isinstance(c, ast.Call) and isinstance(
+                    c.func, ast.Attribute) and c.func.attr == 'add' and \
+                    dotted(c.func.value) and len(dotted(c.func.value)) == 2 \
+                    and dotted(c.func.value)[0] == 'self' and c.args and \
+                    isinstance(c.args[0], ast.Name) and c.args[0].id == oid:
+                recorded.setdefault(dotted(c.func.value)[1], set()).add(meth)
+    R.require(recorded, 'DemoStorage.store no longer records the ids it '
+              'stores')
+    f = R.method(ds, 'new_oid')
+    consulted = set()
+    for c in walk_local(f.node):
+        if isinstance(c, ast.Compare) and len(c.ops) == 1 and isinstance(
+                c.ops[0], (ast.In, ast.NotIn)):
+            d_ = dotted(c.comparators[0])
+            if d_ and len(d_) == 2 and d_[0] == 'self':
+                consulted.add(d_[1])
+    R.instance('DemoStorage.new_oid', consults=sorted(consulted),
+               store_records_in=sorted(recorded))
+    for attr, meths in sorted(recorded.items()):
+        if attr not in consulted:
+            R.violation(
+                (f.module.relpath, f.qualname,
+                 'self.%s not consulted' % attr),
+                'DemoStorage.new_oid does not look at self.%s, in which %s '
+                'record%s the id of a record of the transaction in '
+                'progress: an id that a copied record is being stored under '
+                '(and that this storage did not issue) is handed out as '
+                'new; the store under it silently replaces the copied '
+                'record' % (attr, ' and '.join(sorted(meths)),
+                            's' if len(meths) == 1 else ''))
